@@ -11,6 +11,10 @@ CLAIMED = {
          "trusted: math/bits externs (OnesCount64=pc, TrailingZeros64, Len64 documented behaviour), constant-table rule for u64Tab, GetN* require n>=0 (make panics otherwise)."),
  "C09": ("proof", "Marshal (lengths, dense layout), Unmarshal (never panics for any byte string, error cases, dense layout, sparse path exact: accepted iff every pair is in [0,1023], resulting words = old | set denoted by the pairs), BigU32 / U32BitTip construction from integers, SetI64/SetU32 acceptance, and their ascending/descending iteration back to Start*1024+member, all for every input", "4/C09",
          "trusted: encoding/binary little-endian externs, the recursive definition of the denoted set acc (definitional axioms), C08 contracts at call sites. Not decided: decode(encode(b)) == b as a single lemma (both directions are specified and proved separately; the sparse Marshal byte content is delegated to GetNAsI16's contract only for its length), list forms BigU32s/U32BitTips."),
+ "C12": ("proof", "queue/syncq.SyncQueue and the three pipe queues q.Q, async.Q, mux.Q: every method is proved against an abstract ordered-set specification (add at the back = rank above all, prior add = rank below all, pop removes the minimum-rank item and nothing else, closed/full refusals leave the content unchanged, Pop vs PopAnyway close semantics, SyncQueue drops pushes after close and hands out remaining items first); all state accessed only under the mutex (lock-held obligations) and the monitor invariant re-established at every release including Cond.Wait", "4/C12",
+         "trusted: container/list ranked-set extern model with finite-set cardinality axioms, eapache queue extern, sync.Mutex/Cond model, distinct non-nil package error values. Not decided: mq.MQ (two-level queue) and priq.PriQueue (heap) are not under contract yet; FIFO over whole histories follows from the per-operation rank contracts by induction (meta-argument)."),
+ "C13": ("proof", "no-lost-wake-up as monitor invariants over ghost counters of sync.Cond (sleepers = parked, woken = signalled and not yet resumed): SyncQueue: closed => no sleeper, open with sleepers => items <= woken; pipe queues: a sleeper exists only while the queue is empty and open (every add and close broadcasts). Proved at every release point of every method of syncq.SyncQueue, q.Q, async.Q, mux.Q", "4/C13",
+         "trusted: sync.Cond ghost-counter model (Wait returns only after a signal reached the waiter), scheduler fairness. Not decided: liveness proper; mq.MQ; the priority queue's wake channel."),
  "C14": ("proof", "lane index contract of NormalizeSlotIndex proved for every int (64-bit vectors); the other clauses of C14 are not decided by this check", "4/C14",
          "Not decided: execution order/non-overlap in time, result routing, Stop semantics (goroutines/channels are outside the verified subset so far)."),
  "C17": ("proof", "NewReMap establishes a strictly ascending partition ending at MaxUint64; SearchUInt64s/SearchIndex return the unique shard in range; SimpleIndex is value mod shards for every integer width (sign extension included) and in range for every key", "4/C17",
@@ -26,8 +30,6 @@ NOT_YET = {
  "C05": "TTL cache contracts not built yet",
  "C10": "bytex contracts (bytes.Buffer extern model) not built yet",
  "C11": "tex.Buffer contracts not built yet",
- "C12": "queue contracts not built yet",
- "C13": "sync.Cond ghost-counter model not built yet",
  "C15": "mux worker contracts not built yet",
  "C16": "stcp session contracts not built yet (goroutines/network: only thin safety clauses are within reach)",
  "C19": "vcode contracts (string model) not built yet",
